@@ -309,3 +309,20 @@ def timed_run(case, rec):
     for (ts, jd), w in zip(rows, want_epochs):
         if abs(float(jd) - float(datetimeToJulianDate(w))) * 86400 > 1e-4:
             raise Violation("recorded_jd", f"epoch row {ts} has JD {jd!r}, off from calendar by more than 0.1 ms")
+    # every row of the epochs table (the clock writes the whole configured span in advance): on the grid start + k*dt, never
+    # beyond the configured span, Julian date and timestamp in agreement, no duplicates
+    span = total + 2 * dt
+    all_rows = kit.raw_sql("select timestampISO, julian_date from epochs order by julian_date")
+    seen = set()
+    for ts, jd in all_rows:
+        when = datetime.fromisoformat(ts)
+        off = (when - t0).total_seconds()
+        if off < 0 or off > span or off % dt != 0:
+            raise Violation("epoch_off_grid", f"epochs table holds {ts} = start+{off}s, not start + k*{dt}s within the configured span of {span}s")
+        if abs(float(jd) - float(datetimeToJulianDate(when))) * 86400 > 1e-4:
+            raise Violation("recorded_jd", f"epoch row {ts} has JD {jd!r}, off from its own timestamp by more than 0.1 ms")
+        if ts in seen:
+            raise Violation("epoch_duplicate", f"epoch {ts} stored twice")
+        seen.add(ts)
+    if span % dt:
+        rec.label("span_not_multiple_of_step")
